@@ -557,6 +557,15 @@ def rule_contnorm(ctx):
             v = m.val.a[0]
             if v.op == "bin" and v.a[0] == "/":
                 apps.append((m, v))
+    if not apps:
+        # comprehension form: the per-variation lists are [E for variation in variations]; np.max(list) is returned
+        for r in s.returns:
+            if r.term.op == "tuple":
+                for z in r.term.a:
+                    if z.op == "call" and call_name(z) == "np.max" and z.a[1] and z.a[1][0].op == "comp" and z.a[1][0].a[0] == "list":
+                        v = z.a[1][0].a[1]
+                        if v.op == "bin" and v.a[0] == "/" and not any(v is w for _, w in apps):
+                            apps.append((r, v))
     need(len(apps) == 2, R, "continuity: the two appended accuracies (continuous, total) were not found")
     cont = [(m, v) for m, v in apps if any(x.op == "call" and call_name(x) == "np.diff" for x in tm.walk(v.a[1]))]
     tot = [(m, v) for m, v in apps if v.a[1].op == "call" and call_name(v.a[1]) in ("np.sum", "builtins.sum")]
